@@ -1,4 +1,5 @@
 import TexSoupModel.GrammarOps
+import TexSoupModel.Path
 /-!
 # Renaming commands and environments in a grammar document
 
@@ -125,10 +126,204 @@ def renameTreeL (qc : Str → Int → Bool) (newc : Str) (qe : Str → Int → B
   | e :: es => renameTree qc newc qe newe e :: renameTreeL qc newc qe newe es
 end
 
+mutual
+/-- Apply `g` to the outermost nodes selected by `sel`; everything else is rebuilt unchanged. -/
+def mapSel (sel : Expr → Bool) (g : Expr → Expr) : Expr → Expr
+  | .text s p => if sel (.text s p) then g (.text s p) else .text s p
+  | .cmd n a b p =>
+      if sel (.cmd n a b p) then g (.cmd n a b p) else .cmd n (mapSelL sel g a) (mapSelL sel g b) p
+  | .nenv n a b p =>
+      if sel (.nenv n a b p) then g (.nenv n a b p) else .nenv n (mapSelL sel g a) (mapSelL sel g b) p
+  | .math k b p => if sel (.math k b p) then g (.math k b p) else .math k (mapSelL sel g b) p
+  | .group k b p => if sel (.group k b p) then g (.group k b p) else .group k (mapSelL sel g b) p
+def mapSelL (sel : Expr → Bool) (g : Expr → Expr) : List Expr → List Expr
+  | [] => []
+  | e :: es => mapSel sel g e :: mapSelL sel g es
+end
+
+mutual
+/-- The tree without any position (all set to `0`, also the `-1` of made-up nodes). -/
+def bare : Expr → Expr
+  | .text s _ => .text s 0
+  | .cmd n a b _ => .cmd n (bareL a) (bareL b) 0
+  | .nenv n a b _ => .nenv n (bareL a) (bareL b) 0
+  | .math k b _ => .math k (bareL b) 0
+  | .group k b _ => .group k (bareL b) 0
+def bareL : List Expr → List Expr
+  | [] => []
+  | e :: es => bare e :: bareL es
+end
+
+/-- the contents are one text -/
+def isOneText : List Expr → Bool
+  | [.text _ _] => true
+  | _ => false
+
+/-- `node.string = s` is applicable (tree side): a selected command with exactly one argument,
+a selected environment without arguments whose contents are one text. -/
+def strSel (qc qe : Str → Int → Bool) : Expr → Bool
+  | .cmd n a _ p => qc n p && a.length == 1
+  | .nenv n a b p => qe n p && a.isEmpty && isOneText b
+  | _ => false
+
+/-- `node.string = s` on an applicable node; `np` is the position of the new text leaf (`-1` in
+the implementation: a plain string). -/
+def strTop (s : Str) (np : Int) : Expr → Expr
+  | .cmd n a b p => .cmd n (a.map fun x => x.setBody [.text s np]) b p
+  | .nenv n a _ p => .nenv n a [.text s np] p
+  | e => e
+
+/-- the elements at the given indices, in that order (`[l[i] for i in idx]`; indices beyond the
+end are skipped) -/
+def pick {α : Type} (idx : List Nat) (l : List α) : List α := idx.filterMap (l[·]?)
+
+/-- the kind of an argument group -/
+def isGroupOf (k : GKind) : Expr → Bool
+  | .group k' _ _ => k' == k
+  | _ => false
+
+/-- `node.args = [args[i] for i in i1 ++ i2 ++ i3 ++ i4]` is applicable (tree side) and the new
+list is a run that the reader reads back: the arguments picked by `i1` are bracket groups, by `i2`
+brace groups, by `i3` bracket groups, by `i4` brace groups (for an environment `i1` is empty: the
+run behind `\begin{name}` starts with brace groups). -/
+def argSel (qc qe : Str → Int → Bool) (i1 i2 i3 i4 : List Nat) : Expr → Bool
+  | .cmd n a _ p => qc n p && (pick i1 a).all (isGroupOf .bracket) && (pick i2 a).all (isGroupOf .brace)
+      && (pick i3 a).all (isGroupOf .bracket) && (pick i4 a).all (isGroupOf .brace)
+  | .nenv n a _ p => qe n p && i1.isEmpty && (pick i2 a).all (isGroupOf .brace)
+      && (pick i3 a).all (isGroupOf .bracket) && (pick i4 a).all (isGroupOf .brace)
+  | _ => false
+
+/-- `node.args = [args[i] for i in idx]` -/
+def argTop (idx : List Nat) : Expr → Expr
+  | .cmd n a b p => .cmd n (pick idx a) b p
+  | .nenv n a b p => .nenv n (pick idx a) b p
+  | e => e
+
 end TexSoup
 
 namespace TexSoup.Gram
 open TexSoup
+
+/-! ### `node.args = [own arguments, reordered / sliced]` -/
+
+/-- What to re-argument: `pc esc name` selects commands, `pe esc nt` environments; the new
+argument run is given by four index lists into the old argument list: first bracket groups, then
+brace groups, then bracket groups, then brace groups. -/
+structure SetA where
+  pc : Tok → Tok → Bool
+  pe : Tok → Tok → Bool
+  i1 : List Nat
+  i2 : List Nat
+  i3 : List Nat
+  i4 : List Nat
+
+/-- an argument group with its kind -/
+abbrev TA := GKind × Arg
+
+def tag (k : GKind) (as : List Arg) : List TA := as.map fun a => (k, a)
+
+/-- the picked groups are of kind `k` -/
+def kindsAre (k : GKind) (l : List TA) : Bool := l.all fun x => x.1 == k
+
+/-- the argument without the spacer in front of it (the serialiser does not print it) -/
+def untag (l : List TA) : List Arg := l.map fun x => match x.2 with
+  | .mk _ o b c => .mk none o b c
+
+mutual
+/-- `node.args = [args[i] for i in i1 ++ i2 ++ i3 ++ i4]` on the selected commands and
+environments, if the picked groups have the kinds of a readable run; nothing below a
+re-argumented node changes. -/
+def setArgs (r : SetA) : Elem → Elem
+  | .leaf t => .leaf t
+  | .group o b c => .group o (setArgsS r b) c
+  | .math k o b c => .math k o (setArgsS r b) c
+  | .cmd e n a1 a2 a3 a4 =>
+      let all := tag .bracket a1 ++ (tag .brace a2 ++ (tag .bracket a3 ++ tag .brace a4))
+      if r.pc e n && kindsAre .bracket (pick r.i1 all) && kindsAre .brace (pick r.i2 all)
+          && kindsAre .bracket (pick r.i3 all) && kindsAre .brace (pick r.i4 all) then
+        .cmd e n (untag (pick r.i1 all)) (untag (pick r.i2 all)) (untag (pick r.i3 all))
+          (untag (pick r.i4 all))
+      else .cmd e n (setArgsA r a1) (setArgsA r a2) (setArgsA r a3) (setArgsA r a4)
+  | .item e n a1 a2 a3 a4 b =>
+      .item e n (setArgsA r a1) (setArgsA r a2) (setArgsA r a3) (setArgsA r a4) (setArgsS r b)
+  | .env e bg nm a2 a3 a4 b e2 en nm2 =>
+      let all := tag .brace a2 ++ (tag .bracket a3 ++ tag .brace a4)
+      if r.pe e nm.nt && r.i1.isEmpty && kindsAre .brace (pick r.i2 all)
+          && kindsAre .bracket (pick r.i3 all) && kindsAre .brace (pick r.i4 all) then
+        .env e bg nm (untag (pick r.i2 all)) (untag (pick r.i3 all)) (untag (pick r.i4 all))
+          b e2 en nm2
+      else .env e bg nm (setArgsA r a2) (setArgsA r a3) (setArgsA r a4) (setArgsS r b) e2 en nm2
+  | .venv e bg nm a2 a3 a4 vb e5 =>
+      .venv e bg nm (setArgsA r a2) (setArgsA r a3) (setArgsA r a4) vb e5
+def setArgsS (r : SetA) : List Elem → List Elem
+  | [] => []
+  | e :: es => setArgs r e :: setArgsS r es
+def setArgsArg (r : SetA) : Arg → Arg
+  | .mk sp o b c => .mk sp o (setArgsS r b) c
+def setArgsA (r : SetA) : List Arg → List Arg
+  | [] => []
+  | a :: as => setArgsArg r a :: setArgsA r as
+end
+
+def setArgsD (r : SetA) (d : Doc) : Doc := setArgsS r d
+
+def SetA.ofQ (qc qe : Str → Int → Bool) (i1 i2 i3 i4 : List Nat) : SetA :=
+  ⟨fun esc n => qc n.text esc.pos, fun esc nt => qe nt.text esc.pos, i1, i2, i3, i4⟩
+
+/-! ### `node.string = s` -/
+
+/-- What to re-string: `pc esc name` selects commands, `pe esc nt` environments; `tk` is the new
+text leaf (one token). -/
+structure SetS where
+  pc : Tok → Tok → Bool
+  pe : Tok → Tok → Bool
+  tk : Tok
+
+/-- the argument group with the one leaf `tk` as its contents -/
+def Arg.setLeaf (tk : Tok) : Arg → Arg
+  | .mk sp o _ c => .mk sp o [.leaf tk] c
+
+/-- the body is one leaf -/
+def oneLeaf : List Elem → Bool
+  | [.leaf _] => true
+  | _ => false
+
+mutual
+/-- `node.string = s` on the selected commands with exactly one argument group (its contents
+become the one leaf) and on the selected environments without arguments whose body is one leaf
+(the body becomes the one leaf). `\item`s and verbatim-like environments are not touched. -/
+def setStr (r : SetS) : Elem → Elem
+  | .leaf t => .leaf t
+  | .group o b c => .group o (setStrS r b) c
+  | .math k o b c => .math k o (setStrS r b) c
+  | .cmd e n a1 a2 a3 a4 =>
+      if r.pc e n && (a1.length + a2.length + a3.length + a4.length == 1) then
+        .cmd e n (a1.map (Arg.setLeaf r.tk)) (a2.map (Arg.setLeaf r.tk)) (a3.map (Arg.setLeaf r.tk))
+          (a4.map (Arg.setLeaf r.tk))
+      else .cmd e n (setStrA r a1) (setStrA r a2) (setStrA r a3) (setStrA r a4)
+  | .item e n a1 a2 a3 a4 b =>
+      .item e n (setStrA r a1) (setStrA r a2) (setStrA r a3) (setStrA r a4) (setStrS r b)
+  | .env e bg nm a2 a3 a4 b e2 en nm2 =>
+      if r.pe e nm.nt && a2.isEmpty && a3.isEmpty && a4.isEmpty && oneLeaf b then
+        .env e bg nm [] [] [] [.leaf r.tk] e2 en nm2
+      else .env e bg nm (setStrA r a2) (setStrA r a3) (setStrA r a4) (setStrS r b) e2 en nm2
+  | .venv e bg nm a2 a3 a4 vb e5 =>
+      .venv e bg nm (setStrA r a2) (setStrA r a3) (setStrA r a4) vb e5
+def setStrS (r : SetS) : List Elem → List Elem
+  | [] => []
+  | e :: es => setStr r e :: setStrS r es
+def setStrArg (r : SetS) : Arg → Arg
+  | .mk sp o b c => .mk sp o (setStrS r b) c
+def setStrA (r : SetS) : List Arg → List Arg
+  | [] => []
+  | a :: as => setStrArg r a :: setStrA r as
+end
+
+def setStrD (r : SetS) (d : Doc) : Doc := setStrS r d
+
+/-- selection by what the tree shows of a node; the new leaf carries `s` at position `np` -/
+def SetS.ofQ (qc qe : Str → Int → Bool) (s : Str) (np : Nat) : SetS :=
+  ⟨fun esc n => qc n.text esc.pos, fun esc nt => qe nt.text esc.pos, ⟨s, np, .Text⟩⟩
 
 mutual
 /-- Command names are written without surrounding blanks (true of every tokenizer output; the
